@@ -46,6 +46,7 @@ type scen struct {
 	pretag   int    // 1+id of the node the destination reference points at before the call (0: not tagged)
 	mayFail  bool   // the destination may legitimately refuse the graph: only a reported success is judged
 	byDigest bool   // the source reference is the root's digest string (and the destination reference is left blank)
+	racing   bool   // a second writer may store a node between this copy's Exists and Push (World.Racing)
 }
 
 // family is the curated family plus the shapes only this harness adds.
@@ -58,6 +59,9 @@ func (s scen) name() string {
 	}
 	if s.byDigest {
 		nm += "/source-reference-is-a-digest"
+	}
+	if s.racing {
+		nm += "/racing-writer"
 	}
 	return nm
 }
@@ -205,6 +209,15 @@ func jobs(tier string) []driver.Job {
 			out = append(out, schedJob(s, explore.Bounds{Dev: 1}, []int{0}, 0, 1))
 		}
 	}
+	// (b-racing) a second writer stores nodes (the root included) between this copy's Exists and Push: Copy still
+	// leaves the destination reference resolving to the root
+	for _, d := range family() {
+		if d.Name != "diamond" && d.Name != "dup-layer" {
+			continue
+		}
+		s := scen{d: d, root: len(d.Nodes) - 1, conc: 2, api: "copy", src: "memory", dst: "memory", racing: true}
+		out = append(out, schedJob(s, explore.Bounds{Dev: 1}, []int{0}, 0, 1))
+	}
 	// (b') a context that is already cancelled, or cancelled while the root is resolved/mapped:
 	// whatever the call returns, success must still mean a complete copy
 	for _, d := range family() {
@@ -302,6 +315,7 @@ func (s scen) make(transferred *bool) (func(), func(*vs.Result) *driver.Fail) {
 		src, dst = srcS, dstS
 	}
 	opts := oras.CopyOptions{CopyGraphOptions: oras.CopyGraphOptions{Concurrency: s.conc}}
+	w.Racing = s.racing
 	var mountEvents []string
 	if strings.HasPrefix(s.api, "graph-mount") {
 		k := int(s.api[len("graph-mount")] - '0')
